@@ -112,6 +112,22 @@ void profile_storm(RunCtx& ctx)
             what = use_corpus ? "corpus-xml" : "generated-xml";
             c.entry = rng.below(3);
             int nf = rng.range(1, 3);
+            if (!use_corpus && rng.chance(0.35)) {
+                // model-level faults: well-formed XML whose meaning is wrong (duplicate names, wrong argument counts, ...)
+                Model mf = base;
+                int applied = 0;
+                for (int tries = 0; tries < 4 && applied < 2; ++tries) {
+                    int f = rng.below(MF_COUNT);
+                    if (apply_model_fault(mf, f, rng)) {
+                        what += std::string{"+"} + model_fault_name(f);
+                        ctx.count(std::string{"content-fault:model:"} + model_fault_name(f));
+                        ++applied;
+                    }
+                }
+                Rng r2 = rng.fork();
+                c.bytes = render_xml(mf, kn, r2);
+                nf = rng.range(0, 1);
+            }
             for (int f = 0; f < nf; ++f) {
                 std::string d;
                 int g = rng.below(10);
@@ -128,6 +144,20 @@ void profile_storm(RunCtx& ctx)
             what = "generated-xta";
             c.entry = rng.chance(0.5) ? E_XTA_STR : E_XTA_FILE;
             int nf = rng.range(1, 2);
+            if (rng.chance(0.35)) {
+                Model mf = base;
+                int applied = 0;
+                for (int tries = 0; tries < 4 && applied < 2; ++tries) {
+                    int f = rng.below(MF_COUNT);
+                    if (apply_model_fault(mf, f, rng)) {
+                        what += std::string{"+"} + model_fault_name(f);
+                        ctx.count(std::string{"content-fault:model:"} + model_fault_name(f));
+                        ++applied;
+                    }
+                }
+                c.bytes = render_xta(mf);
+                nf = rng.range(0, 1);
+            }
             for (int f = 0; f < nf; ++f) {
                 std::string d;
                 if (rng.chance(0.7))
